@@ -107,10 +107,6 @@ where
         for<'a> TransposeFrom<&'a BitDecomposed<Replicated<Boolean, B>>, Error = LengthError>,
     DZKPUpgraded<C>: ShardedContext,
 {
-    if input_rows.is_empty() {
-        return Ok(vec![Replicated::ZERO; B]);
-    }
-
     // Apply DP padding for OPRF
     let padded_input_rows = apply_dp_padding::<_, IndistinguishableHybridReport<BK, V>, B>(
         ctx.narrow(&Step::PaddingDp),
